@@ -17,6 +17,15 @@ TIERS = {
     "thorough": {"univ": 6, "cap": 4, "MaxXs": 2, "MaxCt": 4, "rcaps": (1, 2, 8, 16), "runiv": 20, "rsteps": 4000},
 }
 
+SURFACE = {
+    "sset": ["insert_copy", "insert_move", "emplace", "insert_range", "erase_key", "erase_pos", "erase_range", "clear", "swap", "fswap",
+             "ctor_default", "ctor_range"],
+    "fset": ["insert_copy", "insert_move", "emplace", "insert_hint_copy", "insert_hint_move", "emplace_hint", "insert_range",
+             "insert_su_range", "erase_key", "erase_pos", "erase_cpos", "erase_range", "clear", "swap", "fswap", "extract", "replace",
+             "ctor_default", "ctor_range", "ctor_cont", "ctor_su_cont", "ctor_su_range"],
+    "fmset": ["ms_ctor_default", "ms_ctor_cont", "ms_ctor_sorted"],
+}
+
 PROBES = {1: "static_set::equal_range(key_type const&)",
           2: "static_set::equal_range(K const&) [transparent comparator]",
           3: "flat_set::insert(sorted_unique, first, last)",
@@ -69,6 +78,12 @@ def model(tier, rep, have):
         if kind != "fmset" and r["states"] != 2 * nsets * nsets:
             raise vlib.ModelFailure("Set[%s]: %d states, expected %d (not every pair of key sets reached)" % (kind, r["states"], 2 * nsets * nsets))
         gen = [t for t in r["gen"] if t["op"] != "init"]
+        from collections import Counter
+        per_op = Counter(t["op"] for t in gen)
+        missing = [op for op in SURFACE[kind] if not per_op.get(op)]
+        if missing:                                    # vacuity guard: every action of the surface was exported
+            raise vlib.ModelFailure("%s: no transition exported for %s" % (name, missing))
+        rep.cov["modules"][name]["exported_per_op"] = dict(per_op)
         dropped = 0
         if kind == "fset" and not have[3]:
             dropped = sum(1 for t in gen if t["op"] == "insert_su_range")
@@ -123,7 +138,7 @@ def execute(tier, scripts, bins, kinds, impl="etl"):
     """Replay all scripts + seeded random histories on every instantiation."""
     T = TIERS[tier]
     d = vlib.workdir("traces")
-    tasks, outs, meta = [], [], []
+    tasks, outs, meta, replays = [], [], [], []
     nscripts = nhist = 0
     for kind in kinds:
         if (impl, kind, "int") not in bins:
@@ -135,6 +150,7 @@ def execute(tier, scripts, bins, kinds, impl="etl"):
                 tp = os.path.join(d, "set_%s_%s_%s_%s_%s.ndjson" % (impl, kind, elem, cmp_, tier))
                 tasks.append(([bins[(impl, kind, elem)], "replay", kind, elem, cmp_, str(T["cap"]), sp], tp))
                 outs.append(tp)
+                replays.append(tp)
                 meta.append("%s_%s_%s_%d replay" % (kind, elem, cmp_, T["cap"]))
                 nscripts += n
                 for cap in T["rcaps"]:
@@ -152,8 +168,22 @@ def execute(tier, scripts, bins, kinds, impl="etl"):
     desync = sum(int(l.split("desync=")[1].split()[0]) for l in summ)
     leaks = [l for l in summ if not l.endswith("live_delta=0")]
     crashes = len([l for l in errs if l.startswith("CRASH")])
+    skipped = sum(int(l.split("unsupported=")[1].split()[0]) for l in summ)
+    _accounting(impl, replays, nscripts, desync, skipped, crashes)
     return outs, {"scripts": nscripts, "histories": nhist, "unsupported": unsupported, "desync": desync, "leaks": leaks,
                   "crashes": crashes}
+
+
+def _accounting(impl, replays, nscripts, desync, skipped, crashes):
+    """Vacuity guard: every script must have produced exactly one event (or be accounted for as desynchronised / not
+    provided); a driver that silently drops scripts is a harness failure, never a pass."""
+    got = 0
+    for p in replays:
+        with open(p, "rb") as f:
+            got += sum(1 for _ in f)
+    if crashes == 0 and got + desync + skipped != nscripts:
+        raise vlib.ModelFailure("set driver (%s): %d scripts but %d events + %d desynchronised + %d not provided"
+                                % (impl, nscripts, got, desync, skipped))
 
 
 def _side(tier, scripts, bins, kinds, impl):
@@ -191,3 +221,29 @@ def pipeline(tier, rep, calibrate=True):
     if calibrate:
         rep.cov["modules"]["Set"]["calibration_events_std"] = ctv["events"]
     return tv, st
+
+
+def replay(rec):
+    """check.py --replay: re-execute one saved deviation on the current tree. The event's pre-state is rebuilt by real calls
+    (insert), the recorded call runs on the recorded instantiation, SetTrace.tla judges it. Returns the deviations."""
+    ev = rec["event"]
+    kind, elem, cmp_, cap = ev["inst"].split("_")
+    x0 = {"v": 0, "p": 0, "q": 0, "xs": [], "src": "a"}
+    lines = [{"reset": 1, "univ": ev["univ"]}]
+    if kind != "fmset":
+        for o in ("a", "b"):
+            for k in ev["pre"][o]:
+                lines.append({"op": "insert_copy", "o": o, "x": dict(x0, v=k)})
+    lines.append({"op": ev["op"], "o": ev["o"], "x": ev["x"], "last": 1})
+    d = vlib.workdir("set", "replay")
+    sp, tp = os.path.join(d, "script.ndjson"), os.path.join(d, "trace.ndjson")
+    with open(sp, "w") as f:
+        for ln in lines:
+            f.write(json.dumps(ln) + "\n")
+    have = probes()
+    flags = ["-DSH_CAPS=" + cap, "-DSH_KIND=%d" % KIND_ID[kind], "-DSH_SSET_ER=%d" % have[1], "-DSH_SSET_HER=%d" % have[2],
+             "-DSH_FSET_INS_SU=%d" % have[3]] + (["-DSH_ELEM_TRK"] if elem == "trk" else [])
+    exe = vlib.build("set_driver.cpp", "set_replay", flags=flags)
+    vlib.run([exe, "replay", kind, elem, cmp_, cap, sp], tp)
+    tv = vlib.tlc_tv("SetTrace.tla", "SetTrace.cfg", tp, "set_tv_replay", heap="2g")
+    return [x for x in tv["deviations"] if not x["kind"].startswith("life")]
